@@ -164,7 +164,7 @@ func returnNud(p *parser, t *token) *token {
 }
 
 func callLed(p *parser, t *token, left *token) *token {
-	call := symAtPos(p.Token.Pos, "call")
+	call := symAtPos(t.Pos, "call") // the call is where its "(" is, as in Go, not where its first argument is
 	call.Append(left)
 	arguments := symAtPos(p.Token.Pos, "arguments")
 	call.Append(arguments)
